@@ -22,6 +22,21 @@ CLAIMED = {
         design="§3 C12"),
 }
 
+CLAIMED["C11"] = dict(
+    text="Proof for all inputs (loops by inductive invariants, no bound) of: memory safety, termination of the decoder loops and "
+         "frame of the pkg/encoding codecs for arbitrary bytes (varint/varuint decoders, adaptive-width uint64 blocks, plain/zstd block "
+         "framing, delta / delta-of-delta / const list decoders, dictionary decode with its run-length index stream); exact value "
+         "specifications of the fixed-width and zig-zag codecs (bit-vector semantics) with their inverse lemmas; and the element-wise "
+         "round trip of the adaptive-width block codec (encodeUint64List output decodes, by decodeUint64List's contract, to the same "
+         "sequence; plain compressed blocks likewise).",
+    note=COMMON_NOTE + "Assumed: zstd.Compress/Decompress, the bit-packing reader/writer over io interfaces, pool discipline (a pooled "
+         "object is unaliased), objects smaller than 2^60 elements. Not yet under contract: float decimal codec, vararray, "
+         "EncodeBytesBlock/BytesBlockDecoder, list-level varint value round trip, Int64ListToBytes mode selection. BytesToInt64List is "
+         "verified under the precondition itemsCount>=1 (>=2 for delta-of-delta) which its callers take from block metadata.",
+    technique="contract-based deductive verification: weakest-precondition VCs from the typed Go AST (govc), loop invariants, "
+              "call-by-contract; obligations discharged by z3/cvc5; counterexamples replayed via go test -overlay",
+    design="§3 C11")
+
 NOT_APPLICABLE = {
     "C15": "equivalence of two whole query pipelines over generated proto types: translation validation, no function contract states it (DESIGN.md §5)",
     "C17": "whole-cluster equivalence and gRPC/proto-typed transfer code with no type information in this tree (DESIGN.md §5)",
